@@ -212,6 +212,7 @@ def enabled_unterminated(ck, prog):
     #     writes preprocessor state
     n = 0
     ok_all = True
+    _memo = {}
     for p in paths.enum_paths(pi, prog):
         if p.end != "return" or not p.ret or p.ret[0] != "rv":
             continue
@@ -233,6 +234,11 @@ def enabled_unterminated(ck, prog):
                 for arg in e[2]["args"]:
                     l = op_local(arg)
                     if l in mutrefs:
+                        wrote = True
+                c = Body.callee(e[2]) or ""
+                if c.startswith(PP) and c != pi.path:
+                    # a helper method of the preprocessor that changes one of its counters
+                    if any(net not in (0,) for (_lab, net, _rk) in counter_effects(prog, c, _memo)):
                         wrote = True
         ok_all = ok_all and wrote
     ck.ob("R15.7", "open-recorded", n > 0 and ok_all,
